@@ -107,6 +107,17 @@ def _split_and_print_progress(iterable, num_chunks=10, write=None, desc="Progres
         yield iterable
 
 
+def _read_synced_collections(data):
+    """Replace synced collections, at any depth, by the data they hold on disk."""
+    if isinstance(data, SyncedCollection):
+        return data()
+    if isinstance(data, Mapping):
+        return {key: _read_synced_collections(value) for key, value in data.items()}
+    if isinstance(data, (list, tuple)):
+        return type(data)(_read_synced_collections(value) for value in data)
+    return data
+
+
 class _ProjectConfig(_Config):
     r"""Extends the project config to make it immutable.
 
@@ -531,10 +542,10 @@ class Project:
             raise ValueError("Either statepoint or id must be provided, but not both.")
         elif statepoint is not None:
             # Second best case (Job will update self._sp_cache on init)
-            if isinstance(statepoint, SyncedCollection):
-                # A synced collection (a document, another job's state point)
-                # must be read before it is hashed: it may not be loaded yet.
-                statepoint = statepoint()
+            # A synced collection (a document, another job's state point, or a
+            # part of one used as a value) must be read before it is hashed: it
+            # may not be loaded yet, and the new job must not share it.
+            statepoint = _read_synced_collections(statepoint)
             return Job(project=self, statepoint=deepcopy(statepoint))
         try:
             # Optimal case (id is in the state point cache)
